@@ -107,13 +107,37 @@ def run(ctx):
                 r.inst({"unknown_encoding_edge": "returns Err, builds no decoder" if ok else f"builds {builds}"}, ok)
                 if not ok:
                     r.violate(fn.id, "unknown-encoding", f"an encoding not handled explicitly still constructs {builds}", rec["file"], t[5])
-    return [r]
+    return [r, rule_carry(facts)]
+
+
+def rule_carry(facts):
+    """see rules/c10carry.py"""
+    from .c10carry import carry_instances
+    r = RuleResult("C10-CARRY", "decoder fields that carry state from value to value inside a read loop are not re-initialised between the entry of "
+                   "the read call and that loop (decoding is independent of how the values are split over read calls)", floor=10)
+    for rec in facts.all_fns(["glaredb_ext_parquet"]):
+        if "::column::" not in rec["id"] or "::tests::" in rec["id"] or "testutil" in rec["id"]:
+            continue
+        fn = Fn(rec)
+        for inst in carry_instances(fn):
+            r.functions.add(fn.id)
+            bad = inst["reinit_before_loop"]
+            r.inst({k: v for k, v in inst.items() if k not in ("file", "line")}, not bad)
+            if bad:
+                r.violate(fn.id, f"carried-state-reset:{inst['field']}",
+                          f"`self.{inst['field']}` is updated from its previous content inside the value loop ({inst['update']}) and read there "
+                          f"({inst['read_in_loop']}), but it is re-initialised on the way from the function entry to the loop ({', '.join(bad)}): the "
+                          "first value of every read call is decoded from reset state, so the decoded values depend on where the previous call stopped",
+                          inst["file"], inst["line"])
+    return r
 
 
 CLAIM = {
     "text": "Table-agreement rule on MIR: the (encoding, physical type) reachability of every PageDecoder construction site, derived from the "
             "dominating discriminant switches and equality tests, is compared with the Parquet specification's encoding table and with the "
-            "decoder's width. This is decidable from code shape for every file; whether the decoders compute the right values is not decided.",
+            "decoder's width. This is decidable from code shape for every file; whether the decoders compute the right values is not decided. "
+            "Plus a resumability rule: a decoder field with a loop-carried update that is read inside the per-value loop is not re-initialised "
+            "between the entry of `read` and the loop (decoding does not depend on how values are split over read calls).",
     "note": "trusted: rustc MIR; the specification table in rules/c10.py (Parquet format encodings page)",
     "technique": "static analysis: MIR reachability under discriminant constraints vs. a specification table (rustc_private driver)",
 }
